@@ -39,7 +39,8 @@ INames == {"x", "y"}
 \* ---------------------------------------------------------------- domain
 \* twelve numbered outputs in their natural order 0, 1, 2, ..., 11 - which is NOT the lexicographic order of their names
 Twelve == <<"0", "1", "2", "3", "4", "5", "6", "7", "8", "9", "10", "11">>
-OutKinds(n) == IF n <= MaxRichN THEN {<<>>, <<"0">>, <<"a">>, <<"a", "b">>, <<"0", "a">>, Twelve} ELSE {<<>>, <<"0">>, <<"a", "b">>}
+OutKinds(n) == (IF n <= MaxRichN THEN {<<>>, <<"0">>, <<"a">>, <<"a", "b">>, <<"0", "a">>} ELSE {<<>>, <<"0">>, <<"a", "b">>})
+               \cup (IF n <= 2 THEN {Twelve} ELSE {})
 \* the ORDER of a node's outputs is part of the node (the values of a multi-output task are bound to them in that order):
 \* every graph with a multi-output node is generated a second time with all its output lists reversed (rev), so that each
 \* two-output list occurs in both orders and the numbered list also counting down
